@@ -3,6 +3,8 @@ package main
 import (
 	"fmt"
 	"go/ast"
+	"go/token"
+	"go/types"
 )
 
 // Guard tables for block acceptance (C06) and transaction admission (C07).
@@ -22,6 +24,7 @@ const (
 	fldBlockTxs    = "pkg/core/block#Transactions"
 	symHeaderHash  = "pkg/core/block.(*Header).Hash"
 	symTxSize      = "pkg/core/transaction.(*Transaction).Size"
+	symTxHashM     = "pkg/core/transaction.(*Transaction).Hash"
 	fldTxNetFee    = "pkg/core/transaction#NetworkFee"
 	fldTxVUB       = "pkg/core/transaction#ValidUntilBlock"
 	symBlockHeight = symBC + "BlockHeight"
@@ -90,6 +93,98 @@ func ruleAcceptDominators(c *Ctx) {
 	// header witnesses are checked against the consensus address designated by the previous header
 	argMentions(c, "verifyHeaderWitnesses.next-consensus", [3]string{"pkg/core", "Blockchain", "verifyHeaderWitnesses"}, symBC+"VerifyWitness", 0, "pkg/core/block#NextConsensus", "param#1")
 	argMentions(c, "verifyHeaderWitnesses.script", [3]string{"pkg/core", "Blockchain", "verifyHeaderWitnesses"}, symBC+"VerifyWitness", 2, "pkg/core/block#Script", "param#0")
+	// the transaction list of an accepted block has no repeated element: the Merkle root alone does not say so (the
+	// tree duplicates the last leaf of an odd level, [a,b,c,c] has the root of [a,b,c]). Shape: a loop over the
+	// block's transactions that looks each hash up in a set it fills and leaves AddBlock with an error on a hit,
+	// not nested under anything but the block-verification switch, and placed before storeBlock.
+	if fd := c.P.Func("pkg/core", "Blockchain", "AddBlock"); fd != nil {
+		f := c.P.NewFuncCFG(fd)
+		info := f.Info
+		found, foundPos := false, token.NoPos
+		var stack []ast.Node
+		ast.Inspect(fd.Decl.Body, func(n ast.Node) bool {
+			if n == nil {
+				stack = stack[:len(stack)-1]
+				return true
+			}
+			stack = append(stack, n)
+			rs, ok := n.(*ast.RangeStmt)
+			if !ok || !f.Mentions(rs.X, nil)[fldBlockTxs] {
+				return true
+			}
+			// enclosing conditions: only the SkipBlockVerification test may enclose the loop
+			for _, a := range stack[:len(stack)-1] {
+				if is, ok := a.(*ast.IfStmt); ok && !f.Mentions(is.Cond, nil)[cfgSkipVerify] {
+					return true
+				}
+				if _, ok := a.(*ast.RangeStmt); ok {
+					return true
+				}
+				if _, ok := a.(*ast.ForStmt); ok {
+					return true
+				}
+			}
+			var set types.Object
+			rejects := false
+			ast.Inspect(rs.Body, func(x ast.Node) bool {
+				switch y := x.(type) {
+				case *ast.IfStmt:
+					lookup := false
+					chk := func(e ast.Node) {
+						ast.Inspect(e, func(z ast.Node) bool {
+							if ix, ok := z.(*ast.IndexExpr); ok {
+								if _, isMap := info.TypeOf(ix.X).Underlying().(*types.Map); isMap && f.Mentions(ix.Index, nil)[symTxHashM] {
+									lookup = true
+									set = rootObj(info, ix.X)
+								}
+							}
+							return true
+						})
+					}
+					chk(y.Cond)
+					if y.Init != nil {
+						chk(y.Init)
+					}
+					if lookup && dropsBlock(y.Body) {
+						rejects = true
+					}
+				}
+				return true
+			})
+			fills := false
+			if set != nil {
+				ast.Inspect(rs.Body, func(x ast.Node) bool {
+					if as, ok := x.(*ast.AssignStmt); ok {
+						for _, l := range as.Lhs {
+							if ix, ok := ast.Unparen(l).(*ast.IndexExpr); ok && rootObj(info, ix.X) == set && f.Mentions(ix.Index, nil)[symTxHashM] {
+								fills = true
+							}
+						}
+					}
+					return true
+				})
+			}
+			if rejects && fills {
+				found, foundPos = true, rs.Pos()
+			}
+			return true
+		})
+		before := false
+		if found {
+			for _, s := range f.CallSites(symStoreBlock) {
+				if foundPos < s.call.Pos() {
+					before = true
+				}
+			}
+		}
+		if found && before {
+			c.OK("AddBlock.tx-unique", c.P.Pos(foundPos), "the transactions of a block are checked for uniqueness (set of hashes, error on a hit) before storeBlock")
+		} else {
+			c.Fail("AddBlock.tx-unique", c.P.Pos(fd.Decl.Pos()), "AddBlock stores a block without checking that its transactions are distinct: the Merkle tree duplicates the last leaf of an odd level, so the list with its last transaction repeated has the same root, block hash and witness; with VerifyTransactions off the repeated transaction is executed twice")
+		}
+	} else {
+		c.Lost("AddBlock.tx-unique.anchor", "AddBlock not found")
+	}
 	c.Floor("guards", len(c.Obls), 14)
 }
 
